@@ -771,3 +771,88 @@ fn c17_clear_plain_unsync_opt() {
 fn c17_clear_plain_sync_pess_r5() {
   c17_clear_plain::<sync::Arena>(Freelist::Pessimistic, 5);
 }
+
+// =============================================================================================
+// C01 / C08 / C10 by bounded history (complements the INV steps: two-operation effects, plain layout,
+// handle layer): a(n1) b(n2) c(rest); release b; d = alloc(m)  -  all sizes symbolic
+// =============================================================================================
+pub(crate) fn c01_hist<A: Allocator>(fl: Freelist, unify: bool) {
+  const CAP: u32 = 96;
+  let arena: A = Options::new().with_capacity(CAP).with_unify(unify).with_freelist(fl).with_maximum_retries(1).with_minimum_segment_size(8).alloc::<A>().unwrap();
+  let dofs = arena.data_offset() as u32;
+  let n1: u32 = kani::any();
+  let n2: u32 = kani::any();
+  kani::assume(n1 >= 1 && n1 <= 9 && n2 >= 17 && n2 <= 40);
+  let (va, vc): (u8, u8) = (kani::any(), kani::any());
+  kani::assume(va != 0 && vc != 0);
+  let p = arena.raw_mut_ptr();
+  let (ea, eb, ec);
+  {
+    let mut a = arena.alloc_bytes(n1).unwrap();
+    let mut b = arena.alloc_bytes(n2).unwrap();
+    let rest = arena.remaining() as u32;
+    kani::assume(rest >= 1);
+    let mut c = arena.alloc_bytes(rest).unwrap();
+    ea = (a.offset() as u32, a.capacity() as u32);
+    eb = (b.buffer_offset() as u32, b.buffer_capacity() as u32);
+    ec = (c.offset() as u32, c.capacity() as u32);
+    assert!(ea.0 >= dofs && ea.0 + ea.1 <= eb.0 && eb.0 + eb.1 <= ec.0 && ec.0 + ec.1 == CAP, "C01: fresh allocations are laid out one after the other inside the data area");
+    unsafe {
+      core::ptr::write_bytes(p.add(ea.0 as usize), va, ea.1 as usize);
+      core::ptr::write_bytes(p.add(eb.0 as usize), 0xEE, eb.1 as usize);
+      core::ptr::write_bytes(p.add(ec.0 as usize), vc, ec.1 as usize);
+      a.detach();
+      c.detach();
+    }
+    core::mem::forget(a);
+    core::mem::forget(c);
+    drop(b); // not on top: becomes a free segment (or is discarded)
+  }
+  assert!(arena.allocated() == CAP as usize, "C10: a non-top release leaves the cursor alone");
+  let m: u32 = kani::any();
+  kani::assume(m >= 1 && m <= 48);
+  let g = do_alloc::<A, u8>(&arena, Kind::Bytes, m);
+  let wa: u32 = kani::any();
+  let wc: u32 = kani::any();
+  kani::assume(wa >= ea.0 && wa < ea.0 + ea.1 && wc >= ec.0 && wc < ec.0 + ec.1);
+  assert!(unsafe { rd8(p, wa) } == va && unsafe { rd8(p, wc) } == vc, "C01: bytes of live allocations change only through their own handle");
+  if g.ok {
+    assert!(g.c == m, "C03: capacity is exactly what was requested");
+    assert!(disjoint(g.o, g.c, ea.0, ea.1) && disjoint(g.o, g.c, ec.0, ec.1), "C01: a recycled allocation is disjoint from every live allocation");
+    assert!(disjoint(g.bo, g.bc, ea.0, ea.1) && disjoint(g.bo, g.bc, ec.0, ec.1), "C01: the extent a recycled handle will release is disjoint from every live allocation");
+    assert!(g.o >= eb.0 && g.o + g.c <= eb.0 + eb.1 && g.bo >= eb.0 && g.bo + g.bc <= eb.0 + eb.1, "C01: recycled memory comes from the released range only");
+    assert!(!matches!(fl, Freelist::None), "C10: Freelist::None never reuses freed space");
+    let z: u32 = kani::any();
+    kani::assume(z >= g.o && z < g.o + g.c);
+    assert!(unsafe { rd8(p, z) } == 0, "C08: recycled memory is handed out zero-filled");
+  } else {
+    assert!(g.space_err, "C04: failure is InsufficientSpace");
+    // the segment's data size: released size minus alignment padding minus the 8-byte node
+    let pad = up(eb.0, 8) - eb.0;
+    if !matches!(fl, Freelist::None) && eb.1 > pad + 8 && eb.1 - pad - 8 >= 8 {
+      assert!(m > eb.1 - pad - 8, "C10: a request that fits the only free segment is served from it");
+    }
+  }
+  kani::cover!(g.ok && eb.0 % 8 != 0, "served from a segment made of an unaligned release");
+  kani::cover!(!g.ok && !matches!(fl, Freelist::None), "refused with a segment on the list");
+  core::mem::forget(arena);
+}
+macro_rules! c01h {
+  ($name:ident, $arena:ty, $fl:ident, $unify:expr) => {
+    #[kani::proof]
+    #[kani::unwind(4)]
+    fn $name() {
+      c01_hist::<$arena>(Freelist::$fl, $unify);
+    }
+  };
+}
+// @h props=C01,C08,C10,C03 quick=C01,C10 timeout=1800 bounds=CAP=96,plain-layout,history=a(1..9)b(17..40)c(rest)-drop(b)-alloc(1..48)
+c01h!(c01_hist_unsync_opt_plain, unsync::Arena, Optimistic, false);
+// @h props=C01,C08,C10,C03 quick=C01,C08,C10 timeout=1800 bounds=CAP=96,unify,history=a(1..9)b(17..40)c(rest)-drop(b)-alloc(1..48),retries=1
+c01h!(c01_hist_sync_pess_unify, sync::Arena, Pessimistic, true);
+// @h props=C01,C08,C10,C03 tier=thorough timeout=1800 bounds=CAP=96,plain-layout,history=a(1..9)b(17..40)c(rest)-drop(b)-alloc(1..48),retries=1
+c01h!(c01_hist_sync_opt_plain, sync::Arena, Optimistic, false);
+// @h props=C01,C08,C10,C03 tier=thorough timeout=1800 bounds=CAP=96,unify,history=a(1..9)b(17..40)c(rest)-drop(b)-alloc(1..48)
+c01h!(c01_hist_unsync_pess_unify, unsync::Arena, Pessimistic, true);
+// @h props=C01,C10 tier=thorough timeout=1200 bounds=CAP=96,unify,list=None optcover=served_from_a_segment_made_of_an_unaligned_release|refused_with_a_segment_on_the_list
+c01h!(c01_hist_sync_none_unify, sync::Arena, None, true);
